@@ -377,7 +377,7 @@ func (g *Gen) Device(t *GConf, nedits int, unmanaged bool) (*GConf, []string) {
 			}
 			continue
 		}
-		switch g.Rng.Intn(17) {
+		switch g.Rng.Intn(19) {
 		case 0: // generated names on device
 			for _, a := range d.ACLs {
 				old := a.Name
@@ -561,6 +561,17 @@ func (g *Gen) Device(t *GConf, nedits int, unmanaged bool) (*GConf, []string) {
 					ops = append(ops, "binding-extra")
 				}
 			}
+		case 17, 18: // several line edits inside one ACL, so that they interact
+			if len(d.ACLs) > 0 {
+				a := d.ACLs[g.Rng.Intn(len(d.ACLs))]
+				if len(a.Lines) > 4 {
+					for n := 3 + g.Rng.Intn(3); n > 0; n-- {
+						g.lineEdit(d, a)
+					}
+					a.Lines = dedupLines(a.Lines, g.Kind == "ios")
+					ops = append(ops, "acl-dense-edits")
+				}
+			}
 		case 16: // a line moves down behind lines that are new in the target
 			if len(d.ACLs) > 0 {
 				a := d.ACLs[g.Rng.Intn(len(d.ACLs))]
@@ -593,6 +604,39 @@ func (g *Gen) Device(t *GConf, nedits int, unmanaged bool) (*GConf, []string) {
 		g.addUnmanaged(d)
 	}
 	return d, ops
+}
+
+// lineEdit applies one random line level edit to ACL a of device d.
+func (g *Gen) lineEdit(d *GConf, a *GACL) {
+	action := func(l string) string { return strings.Fields(l)[0] }
+	switch g.Rng.Intn(4) {
+	case 0: // extra line on device
+		i := g.Rng.Intn(len(a.Lines) + 1)
+		a.Lines = append(a.Lines[:i:i], append([]string{g.ACE(d)}, a.Lines[i:]...)...)
+	case 1, 2: // line missing on device; prefer one that splits a block of the other action
+		if len(a.Lines) < 3 {
+			return
+		}
+		var split []int
+		for i := 1; i+1 < len(a.Lines); i++ {
+			if action(a.Lines[i]) != action(a.Lines[i-1]) && action(a.Lines[i-1]) == action(a.Lines[i+1]) {
+				split = append(split, i)
+			}
+		}
+		i := g.Rng.Intn(len(a.Lines))
+		if len(split) > 0 && g.Rng.Intn(2) == 0 {
+			i = split[g.Rng.Intn(len(split))]
+		}
+		a.Lines = append(a.Lines[:i:i], a.Lines[i+1:]...)
+	case 3: // moved line
+		if len(a.Lines) < 3 {
+			return
+		}
+		i, j := g.Rng.Intn(len(a.Lines)), g.Rng.Intn(len(a.Lines)-1)
+		l := a.Lines[i]
+		a.Lines = append(a.Lines[:i:i], a.Lines[i+1:]...)
+		a.Lines = append(a.Lines[:j:j], append([]string{l}, a.Lines[j:]...)...)
+	}
 }
 
 // addUnmanaged mixes content into the device that Netspoc must leave alone.
